@@ -8,3 +8,10 @@ import TephraProps.C06
 #print axioms Tephra.Props.C06_fuel_accounting
 #print axioms Tephra.Props.C06_abs_view
 #print axioms Tephra.Props.C06_finding_F27
+#print axioms Tephra.Props.C06_sim_clauses
+#print axioms Tephra.Props.C06_filter_scope_refines
+#print axioms Tephra.Props.C06_filter_with_refines
+#print axioms Tephra.Props.C06_scoped
+#print axioms Tephra.Props.C06_scoped_extends
+#print axioms Tephra.Props.C06_scoped_needs_body_consumes
+#print axioms Tephra.Props.C06_scoped_needs_sub_reset
